@@ -231,6 +231,7 @@ class CommandManager(object):
         self.queue_lock_map = {}
         self.results = {}
         self.pause = set([])
+        self.paused = False
 
     @on_root_proc
     def add_interface(self, callable, block=True):
@@ -274,8 +275,13 @@ class CommandManager(object):
     def wait_for_cmd(self):
         ''' wait for command from any interface '''
         with self.qlock:
-            while self.pause:
+            while True:
                 with self.plock:
+                    # `paused` is the predicate `wait()` blocks on; it is
+                    # decided under plock, the lock guarding `pause`.
+                    self.paused = bool(self.pause)
+                    if not self.paused:
+                        break
                     self.plock.notify_all()
                 self.qlock.wait()
                 self.run_queued_commands()
@@ -315,7 +321,8 @@ class CommandManager(object):
 
     def wait(self):
         with self.plock:
-            self.plock.wait()
+            while not self.paused:
+                self.plock.wait()
 
     def cont(self):
         ''' continue after a pause command '''
